@@ -13,6 +13,17 @@ Proof. exact chunked_mean. Qed.
 Theorem C09_mean_is_sum_over_count : forall l : list Q, l <> [] -> qmean l * inject_Z (Z.of_nat (length l)) == qsum l.
 Proof. exact mean_times_count. Qed.
 
+(** batch average = molecule-count-weighted mean of the per-tomogram averages (per voxel; every tomogram holds a molecule) *)
+Theorem C09_batch_mean_is_weighted_mean : forall chunks : list (list Q), Forall (fun c => c <> []) chunks ->
+  qmean (concat chunks) ==
+  qsum (map (fun c => inject_Z (Z.of_nat (length c)) * qmean c) chunks) / inject_Z (Z.of_nat (length (concat chunks))).
+Proof. exact batch_mean_is_weighted_mean. Qed.
+
+Example C09_batch_mean_nonvacuous :
+  Forall (fun c : list Q => c <> []) [[1; 2]; [6]] /\ qmean (concat [[1; 2]; [6]]) == 3 /\
+  qsum (map (fun c => inject_Z (Z.of_nat (length c)) * qmean c) [[1; 2]; [6]]) / 3 == 3.
+Proof. split; [repeat constructor; discriminate|split; vm_compute; reflexivity]. Qed.
+
 Theorem C09_order_independent : forall a b : list Q, Permutation a b -> qsum a == qsum b.
 Proof. exact qsum_perm. Qed.
 
@@ -44,3 +55,4 @@ Print Assumptions C09_split_partition.
 Print Assumptions C09_split_nonempty.
 Print Assumptions C09_split_recombine.
 Print Assumptions C09_no_stale_or_shared_graphs.
+Print Assumptions C09_batch_mean_is_weighted_mean.
